@@ -81,6 +81,53 @@ def reix(ctx):
 UNITS["reix"] = reix
 
 
+def join(ctx):
+    """contract Mesh.__add__(other): points = hstack(round8(self.p), round8(other.p)); cells = self's cells followed by other's cells with
+    vertex numbers shifted by the NUMBER OF POINTS of self (not by the number of used vertices), then duplicate points are merged."""
+    import skfem.mesh.mesh as M
+    fn = ctx.function(M.Mesh.__add__)
+    with sarr.index_context() as c:
+        n1, n2, t1n, t2n = c.size("np1", 1), c.size("np2", 1), c.size("nt1", 1), c.size("nt2", 1)
+        used1 = c.size("nvertices1", 1)
+        c.add(tm.le(used1.t, n1.t))                # vertices actually used by cells may be fewer than points
+
+        class Stub:
+            def __init__(self, p, t):
+                self.p, self.t = p, t
+                self.doflocs = p
+
+            nvertices = None
+            _remove_duplicate_nodes = staticmethod(lambda p, t: (p, t))
+
+        a = Stub(SArr.input("p1", (2, n1), tm.REAL), SArr.input("t1", (3, t1n), lo=0, hi=n1))
+        a.nvertices = used1
+        b = Stub(SArr.input("p2", (2, n2), tm.REAL), SArr.input("t2", (3, t2n), lo=0, hi=n2))
+        b.nvertices = c.size("nvertices2", 1)
+        with sarr.mode_i([M]):
+            r = M.Mesh.__add__(a, b)
+        k, k2 = c.skolem("k", 0, t1n.t), c.skolem("k2", 0, t2n.t)
+        v1, v2 = c.skolem("v1", 0, n1.t), c.skolem("v2", 0, n2.t)
+        hy = c.all_hyps()
+        for row in range(3):
+            ctx.prove("join/cells-of-self/row%d" % row, fn, tm.eq(r.t.get((C(row), k.t)), a.t.get((C(row), k.t))), hyps=hy, clause="t[:, k] == self.t[:, k]")
+            ctx.prove("join/cells-of-other/row%d" % row, fn, tm.eq(r.t.get((C(row), tm.add(t1n.t, k2.t))), tm.add(b.t.get((C(row), k2.t)), n1.t)), hyps=hy,
+                      clause="t[:, nt_self + k] == other.t[:, k] + self.p.shape[1]   (shift by the number of POINTS)", replay=dict(kind="surgery"))
+        for ax in range(2):
+            ctx.prove("join/points-of-self/axis%d" % ax, fn, tm.eq(r.p.get((C(ax), v1.t)), tm.app("round8", tm.REAL, a.p.get((C(ax), v1.t)))), hyps=hy, clause="p[:, v] == round(self.p[:, v], 8)")
+            ctx.prove("join/points-of-other/axis%d" % ax, fn, tm.eq(r.p.get((C(ax), tm.add(n1.t, v2.t))), tm.app("round8", tm.REAL, b.p.get((C(ax), v2.t)))), hyps=hy,
+                      clause="p[:, np_self + v] == round(other.p[:, v], 8)")
+        ctx.prove("join/shapes", fn, tm.and_(tm.eq(sarr._t(r.t.shape[1]), tm.add(t1n.t, t2n.t)), tm.eq(sarr._t(r.p.shape[1]), tm.add(n1.t, n2.t))), hyps=hy, clause="nt = nt1 + nt2, np = np1 + np2 before merging")
+    try:
+        M.Mesh.__add__(a, object())
+        ok = False
+    except TypeError:
+        ok = True
+    ctx.fact("join/type-mismatch-raises", fn, ok, "joining different mesh types must raise TypeError", backend="path-execution")
+
+
+UNITS["join"] = join
+
+
 def affine_ops(ctx):
     import skfem.mesh.mesh as M
     for d in (1, 2, 3):
